@@ -28,7 +28,7 @@ struct C15 : Harness {
         });
     }
     std::string run(const Program &p, Stats &st) override {
-        MonHooks mh; mh.reset();
+        MonHooks mh; mh.reset((int)(fnv64(ser(p)) % 3));
         ExecOptions eo; eo.hooks = &mh; eo.final_cleanup = false; eo.heap_buffers = heap;
         std::string res;
         {
